@@ -17,3 +17,52 @@ package floodgate
 //@   at-call FromBytes: assert [variant] arg0[8] == (at(sum, res(sum)[8]) & 0x3f) | 0x80
 //@   at-call FromBytes: assert [other-bytes-digest] forall i int :: 0 <= i && i < 16 && i != 6 && i != 8 ==> arg0[i] == at(sum, res(sum)[i])
 //@   ensures [returns-that-uuid] called(fb) ==> result.0 == res(fb, 0) && result.1 == res(fb, 1)
+
+// ---- C39: Floodgate identity data: format, rejection paths, no crash ---------------------------------------------
+// Format constants (Floodgate's AesCipher): 12-byte IV, "^Floodgate^" + (version 0 + magic 0x3E), '!' splitter.
+// Decrypt: the WHOLE header (identifier and version byte) must match; the IV is the Base64 text before the first
+// splitter, the ciphertext the Base64 text after it; an IV of the wrong size is rejected before GCM sees it (GCM panics
+// on it); whatever GCM.Open rejects (other key, altered byte) is an error; only what Open accepted is returned.
+//@ func (*AesCipher).Decrypt
+//@   props C39
+//@   at-call HasPrefix as hdr: assert ref(arg0) == ref(cipherTextWithIv) && len(arg0) == len(cipherTextWithIv) && streq(bytes(arg1), HEADER)
+//@   at-call IndexByte as split: assert called(hdr) && res(hdr) && arg1 == 33 && ref(arg0) == ref(cipherTextWithIv) && len(arg0) == len(cipherTextWithIv) - len(HEADER)
+//@   at-call DecodeString#1 as ivd: assert called(split) && res(split) != -1
+//@   at-call DecodeString#2 as ctd: assert called(ivd) && res(ivd, 1) == nil
+//@   at-call NewCipher as blk: assert called(ctd) && res(ctd, 1) == nil && ref(arg0) == ref(c.key) && len(arg0) == len(c.key)
+//@   at-call NewGCM as g: assert called(blk) && res(blk, 1) == nil && arg0 == res(blk, 0)
+//@   at-call NonceSize as ns: assert called(g) && res(g, 1) == nil
+//@   at-call Open as open: assert [nonce-length-checked-before-open] called(ns) && len(res(ivd, 0)) == res(ns) && ref(arg2) == ref(res(ivd, 0)) && len(arg2) == len(res(ivd, 0)) && ref(arg3) == ref(res(ctd, 0)) && len(arg3) == len(res(ctd, 0)) && len(arg4) == 0
+//@   ensures [constants] IV_LENGTH == 12 && MAGIC == 62 && SPLITTER == 33 && VERSION == 0
+//@   ensures [wrong-header-is-rejected] called(hdr) && !res(hdr) ==> result.1 != nil && !called(open)
+//@   ensures [missing-splitter-is-rejected] called(split) && res(split) == -1 ==> result.1 != nil && !called(open)
+//@   ensures [bad-base64-is-rejected] (called(ivd) && res(ivd, 1) != nil) || (called(ctd) && res(ctd, 1) != nil) ==> result.1 != nil && !called(open)
+//@   ensures [wrong-iv-size-is-rejected] called(ns) && len(res(ivd, 0)) != res(ns) ==> result.1 != nil && !called(open)
+//@   ensures [unauthentic-data-is-rejected] called(open) && res(open, 1) != nil ==> result.1 != nil && len(result.0) == 0
+//@   ensures [only-authentic-plaintext-is-returned] result.1 == nil ==> called(open) && res(open, 1) == nil && ref(result.0) == ref(res(open, 0)) && len(result.0) == len(res(open, 0))
+// Encrypt: header, Base64(IV), splitter, Base64(GCM.Seal(IV, plaintext)) with a fresh random IV of the GCM nonce size.
+//@ func (*AesCipher).Encrypt
+//@   props C39
+//@   at-call NonceSize as ns
+//@   at-call Read as rnd: assert called(ns) && len(arg0) == res(ns)
+//@   at-call Seal as seal: assert [sealed-under-the-fresh-iv] called(rnd) && res(rnd, 1) == nil && ref(arg2) == ref(arg(rnd, 0)) && len(arg2) == res(ns) && ref(arg3) == ref(plaintext) && len(arg3) == len(plaintext) && len(arg4) == 0
+//@   at-call EncodeToString#1 as ivs: assert called(seal) && ref(arg1) == ref(arg(rnd, 0))
+//@   at-call EncodeToString#2 as cts: assert called(ivs) && ref(arg1) == ref(res(seal)) && len(arg1) == len(res(seal))
+//@   at-call append#2 as sp: assert [splitter-between-iv-and-ciphertext] called(cts) && len(arg1) == 1 && arg1[0] == 33
+// Keys: exactly 16, 24 or 32 bytes.
+//@ func NewAesCipher
+//@   props C39
+//@   ensures [aes-key-sizes-only] (result.1 == nil) == (len(key) == 16 || len(key) == 24 || len(key) == 32)
+
+// The decrypted record: exactly 12 NUL-separated fields; user name non-empty; XUID a non-zero decimal; device, UI
+// profile and input mode decimal; the fields land where Floodgate puts them.
+//@ func ReadBedrockData
+//@   props C39
+//@   at-call Split as sp: assert streq(arg0, data) && streq(arg1, "\x00")
+//@   at-call ParseInt as xu: assert called(sp) && len(res(sp)) == 12 && len(res(sp)[1]) != 0 && streq(arg0, res(sp)[2]) && arg1 == 10 && arg2 == 64
+//@   at-call Atoi#1 as dev: assert called(xu) && res(xu, 1) == nil && res(xu, 0) != 0 && streq(arg0, res(sp)[3])
+//@   at-call Atoi#2 as ui: assert called(dev) && res(dev, 1) == nil && streq(arg0, res(sp)[5])
+//@   at-call Atoi#3 as im: assert called(ui) && res(ui, 1) == nil && streq(arg0, res(sp)[6])
+//@   ensures [wrong-field-count-is-rejected] called(sp) && len(res(sp)) != 12 ==> result.1 != nil && result.0 == nil
+//@   ensures [bad-numbers-are-rejected] (called(xu) && (res(xu, 1) != nil || res(xu, 0) == 0)) || (called(dev) && res(dev, 1) != nil) || (called(ui) && res(ui, 1) != nil) || (called(im) && res(im, 1) != nil) ==> result.1 != nil && result.0 == nil
+//@   ensures [fields-in-floodgate-order] result.1 == nil ==> result.0 != nil && streq(result.0.Version, res(sp)[0]) && streq(result.0.Username, res(sp)[1]) && result.0.Xuid == res(xu, 0) && streq(result.0.Language, res(sp)[4]) && result.0.UIProfile == res(ui, 0) && result.0.InputMode == res(im, 0) && streq(result.0.IP, res(sp)[7]) && streq(result.0.LinkedPlayer, res(sp)[8]) && streq(result.0.SubscribeID, res(sp)[10]) && streq(result.0.VerifyCode, res(sp)[11])
